@@ -309,6 +309,14 @@ pub fn build_graph(rng: &mut Rng, lib: &[LibPkg], cfg: &GenCfg) -> Built {
                     let wit = g[pid].name().starts_with("wit:");
                     cands.retain(|(_, k)| !wit || matches!(k, ItemKind::Instance(_)));
                 }
+                if rng.chance(1, 3) {
+                    // an interface that `use`s others, imported on its own (dependency imports)
+                    let v: Vec<(String, ItemKind)> =
+                        cands.iter().filter(|(_, k)| !item_ty(g.types(), k).1.is_empty()).cloned().collect();
+                    if !v.is_empty() {
+                        cands = v;
+                    }
+                }
                 if cands.is_empty() {
                     continue;
                 }
